@@ -2,7 +2,7 @@
 # applies each reverse fix patch to /repo, runs the mapped checks, reverts
 cd /verif
 mkdir -p build/ev_backup && cp evidence/*.json build/ev_backup/
-for pair in 0b7a1b4:C09 39c290c:C13 dadfa7b:C16 eec2641:C15 8af8028:C14 52e8f2f:C13 c907a95:C12 309141d:C04 422afd3:C06 d778a70:C17 9b0852c:C08,C10 da2ff0c:C19 2aff72c:C10 2c1deda:C04 4a589a0:C06 71ca79d:C19 2845b7c:C11 defac3d:C11 5bbfb09:C11 1763b9d:C09 17715b0:C13; do
+for pair in 0b7a1b4:C09 39c290c:C13 dadfa7b:C16 eec2641:C15 8af8028:C14 52e8f2f:C13 c907a95:C12 309141d:C04 422afd3:C06 d778a70:C17 9b0852c:C08,C10 da2ff0c:C19 2aff72c:C10 2c1deda:C04 4a589a0:C06 71ca79d:C19 2845b7c:C11 defac3d:C11 5bbfb09:C11 1763b9d:C09 17715b0:C13 0584bef:C20 c5fa073:C20 83a91ef:C20; do
   c=${pair%%:*}; ps=${pair##*:}
   if git -C /repo apply --3way /verif/seeded/fix-reverts/$c.diff >/dev/null 2>&1; then
     git -C /repo reset -q
